@@ -112,6 +112,38 @@ func (w *Walker) Run(from ssa.Instruction, env *Env) {
 	w.walk(b, i, env, nil, seen)
 }
 
+// RunEdge explores all paths that start by taking successor k of block b (φ-nodes of the
+// successor are resolved for that edge).
+func (w *Walker) RunEdge(b *ssa.BasicBlock, k int, env *Env) {
+	if env == nil {
+		env = newEnv()
+	}
+	if w.MaxStates == 0 {
+		w.MaxStates = 20000
+	}
+	s := b.Succs[k]
+	idx := -1
+	for pi, p := range s.Preds {
+		if p == b {
+			idx = pi
+		}
+	}
+	newVals := map[ssa.Value]ssa.Value{}
+	for _, in := range s.Instrs {
+		phi, ok := in.(*ssa.Phi)
+		if !ok {
+			break
+		}
+		if idx >= 0 {
+			newVals[phi] = env.Resolve(phi.Edges[idx])
+		}
+	}
+	for k2, v := range newVals {
+		env.vals[k2] = v
+	}
+	w.walk(s, 0, env, []*ssa.BasicBlock{b}, map[string]bool{})
+}
+
 // RunBlock explores all paths starting at the first instruction of block b.
 func (w *Walker) RunBlock(b *ssa.BasicBlock, env *Env) {
 	if env == nil {
@@ -159,8 +191,15 @@ func (w *Walker) walk(b *ssa.BasicBlock, i int, env *Env, trail []*ssa.BasicBloc
 	for k := range follow {
 		follow[k] = true
 	}
-	if ifi, ok := last.(*ssa.If); ok && w.Branch != nil && len(b.Succs) == 2 {
-		follow[0], follow[1] = w.Branch(env, ifi)
+	if ifi, ok := last.(*ssa.If); ok && len(b.Succs) == 2 {
+		if w.Branch != nil {
+			follow[0], follow[1] = w.Branch(env, ifi)
+		}
+		// arms the values on this path rule out (a result assigned a definite error or nil
+		// earlier on the path and tested here)
+		if v, known := envDecide(env, ifi.Cond); known {
+			follow[0], follow[1] = follow[0] && v, follow[1] && !v
+		}
 	}
 	for k, s := range b.Succs {
 		if !follow[k] {
@@ -245,4 +284,41 @@ func trailString(w *World, trail []*ssa.BasicBlock) []string {
 		out = append(out[:6], append([]string{"…"}, out[len(out)-7:]...)...)
 	}
 	return out
+}
+
+// envDecide: the truth value of a branch condition under the values of this path, when the
+// condition is a constant or a nil test of a value known nil / known non-nil.
+func envDecide(env *Env, cond ssa.Value) (val, known bool) {
+	neg := false
+	for {
+		if u, isU := cond.(*ssa.UnOp); isU && u.Op == token.NOT {
+			cond, neg = u.X, !neg
+			continue
+		}
+		break
+	}
+	cond = env.Resolve(cond)
+	if k, ok := cond.(*ssa.Const); ok && k.Value != nil && (k.Value.String() == "true" || k.Value.String() == "false") {
+		return (k.Value.String() == "true") != neg, true
+	}
+	b, ok := cond.(*ssa.BinOp)
+	if !ok || (b.Op != token.EQL && b.Op != token.NEQ) {
+		return false, false
+	}
+	var x ssa.Value
+	switch {
+	case isNilConst(b.Y):
+		x = b.X
+	case isNilConst(b.X):
+		x = b.Y
+	default:
+		return false, false
+	}
+	switch nilState(env.Resolve(x)) {
+	case 1:
+		return ((b.Op == token.EQL) != neg), true
+	case 0:
+		return ((b.Op == token.NEQ) != neg), true
+	}
+	return false, false
 }
